@@ -25,12 +25,20 @@ COMPONENTS = {
     'reference': ['sim/ref_sigv4.py (AWS SigV4 for S3 from the published algorithm)'],
 }
 ASSUMPTIONS = ['FakeS3 canonicalises like S3: path segments and query pairs percent-decoded then re-encoded with the AWS unreserved set, + in a query means space']
-PROBES = ['redirected', 'retry_signed', 'date_rollover', 'host_mixed_case', 'host_default_port', 'host_custom_port', 'token_special', 'stream_upload', 'stream_short_reads', 'list_multi_page', 'name_special', 'aws_s3_class']
+PROBES = ['e2e_commands', 'e2e_limit_below_16N', 'redirected', 'retry_signed', 'date_rollover', 'host_mixed_case', 'host_default_port', 'host_custom_port', 'token_special', 'stream_upload', 'stream_short_reads', 'list_multi_page', 'name_special', 'aws_s3_class']
 TIERS = {'quick': {'budget_s': 50, 'batch': 20}, 'thorough': {'budget_s': 600, 'batch': 40}}
 
 
 def gen_case(seed, tier):
     rng = substream(seed, 'c16')
+    erng = substream(seed, 'c16-e2e')
+    if erng.random() < 0.06:
+        # the real commands over the adapter, optionally with a bandwidth limit (the limiter and the block size the command
+        # picks sit between the stream and the signer), incl. limits below 16 x concurrency
+        tree = gen.tree_spec(erng, mn=8, mx=64, nfiles=erng.choice([1, 2, 3]), max_size=300, allow_nonutf8=False, min_files=1)
+        return {'seed': seed, 'sched_seed': seed, 'kind': 'e2e', 'tree': tree, 'N': erng.choice([1, 2, 5]),
+                'rate_limit': erng.choice([None, 7, 15, 40, 100, 1000, 10**6]), 'encrypted': erng.random() < 0.5,
+                'page': erng.choice([1, 2, 1000]), 'opts': world.SchedOpts.swarm(erng).as_dict()}
     special_p = rng.choice([0.2, 0.6, 0.9])
     names = c13.gen_names(rng, rng.randrange(2, 8), special_p)
     ops = []
@@ -80,7 +88,50 @@ def gen_case(seed, tier):
             'aws_class': rng.random() < 0.15, 'tick': rng.choice([0.0, 0.0, 0.001, 0.2]), 'opts': world.SchedOpts.swarm(rng).as_dict()}
 
 
+def run_e2e(case):
+    from sim import harness
+    viol, probes = [], {'e2e_commands': 1}
+    W = harness.World(case['sched_seed'], 'c16e', flavour='async', lat_kind='zero')
+    try:
+        files = gen.materialize(W.dir / 'src', case['tree'])
+        svc = fakes.FakeS3(bucket='bkt', key_id='AKID', secret='secret/key+1', region='us-east-1', host='s3.fake.test',
+                           page_size=case['page'], latency=0.0, faults=[], request_budget=None)
+        W.make_backend_override = lambda: fakes.make_s3(svc)
+        client = world.Client('u', password=b'pw' if case['encrypted'] else None, concurrent=case['N'])
+        settings = {'chunking': {'min_length': 8, 'max_length': 64},
+                    'encryption': {'kdf': {'name': 'scrypt', 'n': 2, 'r': 1}} if case['encrypted'] else None}
+        opts = world.SchedOpts.from_dict(case['opts'])
+        L = case['rate_limit']
+        if L is not None and L < 16 * case['N']:
+            probes['e2e_limit_below_16N'] = 1
+        steps = (('init', lambda: W.init(client, settings, world.SchedOpts.sequential())),
+                 ('snapshot', lambda: W.snapshot(client, [W.dir / 'src'], opts, rate_limit=L)),
+                 ('restore', lambda: W.restore(client, W.dir / 'out', opts, rate_limit=L)))
+        for name, run in steps:
+            r = run()
+            if svc.violations:
+                v = svc.violations[0]
+                viol.append({'cls': 'request-not-verifiable', 'sig': {'kind': 'e2e', 'cmd': name},
+                             'msg': f'{name} (rate limit {L}, concurrency {case["N"]}): {v["method"]} {v["target"]}: {v["error"]}'})
+                break
+            if not r.ok:
+                viol.append({'cls': 'command-failed', 'sig': {'kind': 'e2e', 'cmd': name},
+                             'msg': f'{name} over S3 (rate limit {L}, concurrency {case["N"]}) failed: {r.outcome()} {r.exc or r.hang!r}'})
+                break
+        if not viol:
+            got = gen.read_tree(W.dir / 'out')
+            want = {str(harness.restored_path(W.dir / 'out', p).relative_to(W.dir / 'out')): v for p, v in files.items()}
+            if got != want:
+                viol.append({'cls': 'wrong-answer', 'sig': {'kind': 'e2e'}, 'msg': f'snapshot + restore over S3 (rate limit {L}) does not reproduce the files'})
+        return {'violations': viol, 'digest': W.digest(), 'nontrivial': True, 'probes': probes, 'evaluations': svc.signed_ok, 'sim_s': W.sim_s, 'steps': W.sim_steps,
+                'sample': {'kind': 'e2e', 'rate_limit': L, 'N': case['N'], 'requests': len(svc.requests)}}
+    finally:
+        W.close()
+
+
 def run_case(case):
+    if case.get('kind') == 'e2e':
+        return run_e2e(case)
     install.install_once()
     viol, probes = [], {}
     epoch = _dt.datetime(1990, 1, 1) + _dt.timedelta(days=case['day'], seconds=case['time_of_day'], microseconds=500000)
@@ -199,6 +250,13 @@ def run_case(case):
 
 
 def shrink(case):
+    if case.get('kind') == 'e2e':
+        for i in range(len(case['tree'])):
+            if len(case['tree']) > 1:
+                c = copy.deepcopy(case)
+                del c['tree'][i]
+                yield c
+        return
     for i in range(len(case['ops']) - 1, -1, -1):
         c = copy.deepcopy(case)
         del c['ops'][i]
